@@ -1123,6 +1123,48 @@ def _decoded_tags(ck, da: FA, units):
     return tags_in
 
 
+_CLASS_TAGS = {"bool": "boolean", "str": "string", "bytes": "binary", "int": "number", "float": "number", "list": "list_result",
+               "tuple": "list_result", "dict": "dictionary", "datetime.datetime": "timestamp", "datetime.date": "date"}
+
+
+def check_class_tags(ck, R, ea: FA, pairs):
+    """The typed {type, value} encoding is read by other language implementations: the tag says which class the value has.
+    The set of emitted tags can be complete (and agree with the decoder) while two classes carry each other's tag -- an
+    int written as 'boolean', a datetime as 'date' -- which round-trips here and is misread everywhere else.  Decided on
+    what the dispatch answers for a value of each class (abstract run of the function under the class hierarchy): the tag
+    of the document returned for class K is K's tag of the frozen cross-language table.  Only definite deviations are
+    reported; outcomes whose tag cannot be read off (built by a helper the run does not enter) are left to the tag-set rule."""
+    D = dispatch_model(ck, ea, pairs)
+    if D is None:
+        return
+    named = set(D.named())
+    for k, want in sorted(_CLASS_TAGS.items()):
+        if k not in named:
+            continue
+        got = set()
+        for (how, text) in D.outcome((k, "exact", "actual")):
+            if how != "return":
+                continue
+            try:
+                tree = ast.parse(text, mode="eval").body
+            except SyntaxError:
+                continue
+            items = _dict_items(tree)
+            for key, v in items or []:
+                if key != "type":
+                    continue
+                if isinstance(v, ast.Attribute) and v.attr == "name" and isinstance(v.value, ast.Attribute) and A.norm(v.value.value) == "ResultType":
+                    got.add(v.value.attr)
+                elif A.const_str(v) is not None:
+                    got.add(A.const_str(v))
+        if not got:
+            continue
+        ok = got == {want}
+        ck.ob(R, ea.key(None, "class-tag:" + k), ok, "a %s argument is tagged '%s'" % (k, want) if ok else
+              "a %s argument is written with the tag %s; the cross-language encoding says '%s': the document still decodes here, but the "
+              "tag no longer tells other implementations what the value is" % (k, sorted(got), want), ea.where(D.where_of(k)))
+
+
 def check_plain_json(ck, R):
     """"The emitted document is plain JSON": `json.dumps` writes the bare tokens NaN / Infinity / -Infinity for non-finite floats
     unless told `allow_nan=False`; they are not JSON (RFC 8259) and strict parsers, such as those of other language
@@ -1414,6 +1456,7 @@ def check(ck):
         if lad or (D is not None and len(D.named()) >= 2):
             n += check_ladder_order(ck, R5, eu, lad, pairs, "wire-encode")
     ck.need(n >= 2, "encode_arg ladder: bool/int and datetime/date not comparable (%d)" % n)
+    ck.run(check_class_tags, ck, "C11.R3", ea, pairs)
     ck.run(check_typed_identity, ck, "C11.R6", ("serialization", "reference"))
     ck.run(check_enum_distinct, ck, "C11.R3")
     ck.run(check_json_bytes, ck, "C11.R3", ["storage_base.DataSourceMetadataSource.put_memento", "storage_base.DefaultCodec.JsonExceptionStrategy.encode"])
